@@ -1,12 +1,18 @@
 #!/bin/bash
-# usage: witness.sh <repo dir> <pkg dir relative to repo, "." for root> <witness test file> <TestName>
-# Runs an in-package test injected with -overlay (nothing is written to the repo).
+# usage: witness.sh <repo dir> <pkg dir relative to repo, "." for root> <TestName regexp> <witness test files...>
+# Runs in-package tests injected with -overlay (nothing is written to the repo).
 set -u
 export GOFLAGS=-mod=mod GOPROXY=off GOSUMDB=off GOTOOLCHAIN=local
-repo=$1; pkg=$2; file=$3; name=$4
+repo=$1; pkg=$2; name=$3; shift 3
 tmp=$(mktemp -d)
 trap 'rm -rf "$tmp"' EXIT
-base=$(basename "$file")
-dst="$repo/$pkg/zz_verif_$base"
-printf '{"Replace": {"%s": "%s"}}' "$dst" "$file" > "$tmp/ov.json"
-cd "$repo/$pkg" && go test -overlay "$tmp/ov.json" -vet=off -count=1 -timeout 120s -run "^$name\$" . 2>&1
+{
+  printf '{"Replace": {'
+  sep=""
+  for f in "$@"; do
+    printf '%s"%s/%s/zz_verif_%s": "%s"' "$sep" "$repo" "$pkg" "$(basename "$f")" "$(realpath "$f")"
+    sep=", "
+  done
+  printf '}}'
+} > "$tmp/ov.json"
+cd "$repo/$pkg" && go test -overlay "$tmp/ov.json" -vet=off -count=1 -timeout 120s -run "$name" . 2>&1
